@@ -387,7 +387,7 @@ def levels(tier: str) -> list[dict]:
     q = tier == 'quick'
     bud = 100 if q else 1800
     L: list[dict] = []
-    plan = [('patterns', 'gamma', 3 if q else 4), ('proofs', 'proof', 3 if q else 5), ('small', 'proof', 3 if q else 6), ('all', 'gamma', 3 if q else 4)]
+    plan = [('patterns', 'gamma', 3 if q else 4), ('proofs', 'proof', 3 if q else 5), ('small', 'proof', 3 if q else 6), ('all', 'gamma', 3 if q else 4), ('lookalike', 'gamma', 2 if q else 3), ('lookalike', 'proof', 2 if q else 3)]
     for alpha, ph, st in plan:
         L.append(dict(label=f'seq/{alpha}/{ph}/steps<={st}', module=M, fn='h_seq', kwargs=dict(alphabet=alpha, steps=st, phase=ph), budget_s=bud, required=True, twin=(alpha == 'small')))
     for kind in 'es':
